@@ -155,6 +155,10 @@ func runPersist(w *bufio.Writer, seed int64, tier string, replay string, mode st
 		if err := json.Unmarshal(data, &rp); err != nil {
 			return err
 		}
+		if rp.Seq.Auto != nil {
+			runAutoTrial(w, rp.Seq.ID, rp.Seq.Auto.Thr, rp.Seq.Auto.Batch)
+			return nil
+		}
 		return runPSeq(w, seqW, rp.Seq)
 	}
 	g := NewGen(seed)
@@ -172,6 +176,11 @@ func runPersist(w *bufio.Writer, seed int64, tier string, replay string, mode st
 		if err := runPSeq(w, seqW, s); err != nil {
 			return err
 		}
+	}
+	if mode == "snap" {
+		autoSeqW = seqW
+		runAutoTrials(w, tier)
+		autoSeqW = nil
 	}
 	for i := 0; i < nRandom; i++ {
 		var s PSeq
